@@ -15,7 +15,7 @@ import EPV.Tactics
 
 set_option linter.all false
 
-open EPV EPV.Gen EPV.Spec
+open EPV EPV.Gen EPV.Spec Filter Topology
 
 namespace EPV.C01
 
@@ -60,5 +60,45 @@ theorem cog5_energy (p : Cog5.P) (r t : ℝ) (hr : 0 < r) (hΓ : p.Gamma ≠ 0) 
 example : ∃ (p : Cog5.P) (r : ℝ), 0 < r ∧ p.Gamma ≠ 0 ∧ p.rho0 ≠ 0 :=
   ⟨{ Gamma := 40, a_rad := 0, alpha_ := 0, beta_ := 0, c_light := 0, lam0_ := 0, rho0 := 9/5, u0 := 23/10 },
     1, by norm_num, by norm_num, by norm_num⟩
+
+/-! ### The returned fields (tree level)
+
+The traced decision tree has a single leaf: the returned fields *are* those of leaf 0. -/
+
+
+theorem cog5_tree (p : Cog5.P) (r t : ℝ) :
+    AgreeAt (Cog5.density p) (Cog5.L0.density p) r t
+      ∧ AgreeAt (Cog5.velocity p) (Cog5.L0.velocity p) r t
+      ∧ AgreeAt (Cog5.temperature p) (Cog5.L0.temperature p) r t := by
+  have e : ∀ x s, Cog5.density p x s = Cog5.L0.density p x s
+      ∧ Cog5.velocity p x s = Cog5.L0.velocity p x s
+      ∧ Cog5.temperature p x s = Cog5.L0.temperature p x s := by
+    intro x s
+    exact ⟨rfl, rfl, rfl⟩
+  exact ⟨⟨fun x => (e x t).1, Filter.Eventually.of_forall fun s => (e r s).1⟩,
+    ⟨fun x => (e x t).2.1, Filter.Eventually.of_forall fun s => (e r s).2.1⟩,
+    ⟨fun x => (e x t).2.2, Filter.Eventually.of_forall fun s => (e r s).2.2⟩⟩
+
+/-- mass balance of the returned (tree-level) fields -/
+theorem cog5_mass_tree (p : Cog5.P) (r t : ℝ) (hr : 0 < r) :
+    massRes (Cog5.density p) (Cog5.velocity p) 2 r t = 0 := by
+  obtain ⟨hρ', hu', hT'⟩ := cog5_tree p r t
+  rw [massRes_congr hρ' hu']
+  exact cog5_mass p r t hr
+
+/-- momentum balance of the returned (tree-level) fields -/
+theorem cog5_momentum_tree (p : Cog5.P) (r t : ℝ) (hr : 0 < r) (hΓ : p.Gamma ≠ 0) (hρ : p.rho0 ≠ 0) :
+    momResT (Cog5.density p) (Cog5.velocity p) (Cog5.temperature p) p.Gamma r t = 0 := by
+  obtain ⟨hρ', hu', hT'⟩ := cog5_tree p r t
+  rw [momResT_congr hρ' hu' hT']
+  exact cog5_momentum p r t hr hΓ hρ
+
+/-- energy balance of the returned (tree-level) fields -/
+theorem cog5_energy_tree (p : Cog5.P) (r t : ℝ) (hr : 0 < r) (hΓ : p.Gamma ≠ 0) (c a α β : ℝ) :
+    energyResT (Cog5.density p) (Cog5.velocity p) (Cog5.temperature p) p.Gamma (1 / 2)
+      2 c a 0 α β r t = 0 := by
+  obtain ⟨hρ', hu', hT'⟩ := cog5_tree p r t
+  rw [energyResT_congr hρ' hu' hT']
+  exact cog5_energy p r t hr hΓ c a α β
 
 end EPV.C01
